@@ -143,7 +143,7 @@ def check_one(ctx, key: str, label: str, always_single: bool):
         if len(names) > 1 and len(apps) == 1:
             okapp = g.escapes(pa, {g.node_of(sched.stmt_of(apps[0])).id}, {hid, g.exit.id, cid}) is None
         else:
-            okapp = len(apps) == 1 and g.path_avoiding(cid, {hid, g.exit.id}, {g.node_of(apps[0]).id}) is None
+            okapp = len(apps) == 1 and (g.node_of(apps[0]).id == cid or g.path_avoiding(cid, {hid, g.exit.id}, {g.node_of(apps[0]).id}) is None)
         ctx.ob(1, "K6", f"[{label}] every Assignment built is returned (appended once to the returned list)", okapp, f, c, construct="assignments.append(assignment)",
                detail=f"returned list(s): {sorted(out_names)}; appends: {[norm.U(a) for a in apps]}")
     # (3) FIFO queue discipline
